@@ -525,6 +525,10 @@ def run_rewrap(spec):
     return dict(nt=len(stack) >= 2, cls=cls)
 
 
+# set to True once wrapper.__init__ no longer edits the stack it is given (see ASSUMPTIONS / KNOWN): the generator then also
+# wraps again with the class of the third layer
+REWRAP_DEEP = False
+
 KNOWN = {
     # signature of the known defect: the re-wrapped class sits under >= 2 other layers
     'c18.rewrap_strips_deep_layer_in_place':
@@ -936,39 +940,32 @@ def _tok_bound(exp):
 # ----------------------------------------------------------------------------- registration
 
 SUBS = [
-    EnumSub('binding_grid', enum_grid, run_grid, chunks=32,
-            rule='EVERY signature (0-4 positional parameters x 0..n trailing defaults x +-*va x +-**vk = 60) x EVERY split of a valid argument set '
-                 '(positional prefix 0..n, each remaining parameter by keyword or left to its default, 0-2 extra positionals for *va, 0-2 extra keywords '
-                 'for **vk) x 2 value sets x keyword order forward/reversed; on each: getcallargs == inspect.getcallargs == own binding model, '
-                 'call_with_callargs(getcallargs) == direct call, and for each of the 11 decorators alone: result, evaluated once, getargspec fields, '
-                 'getcallargs/call_with_callargs through the wrapper, W(W(f)) one layer with the same result. '
-                 'non-trivial = >= 1 parameter passed by keyword and >= 1 default relied on'),
-    Sub('transparent', lambda tier: s_transparent(), run_transparent, quick=2500, thorough=12000,
+    Sub('transparent', lambda tier: s_transparent(), run_transparent, quick=2000, thorough=30000,
         rule='random signature, random valid call with values from ints/strings/None/lists/dicts, stack of 1-3 of the 11 decorators (repeats allowed), '
              'non-raising f; result == own binding model == direct call, getargspec fields == inspect.getfullargspec(f) before and after the call, '
              'getcallargs / call_with_callargs through the stack; in half the cases the same decorator objects then wrap a second function with '
              'another signature. non-trivial = stack of >= 2 decorators, or >= 1 keyword argument and >= 1 default relied on',
         floor=0.5, class_floors={'depth=3': 0.15, 'kw+default': 0.07, 'second_function_same_decorators': 0.15, 'has:cache_func': 0.15, 'has:loops': 0.15,
                                  'has:pd2np': 0.12, 'has:kwargs_support': 0.12, 'has:try_back': 0.15, 'has:try_value': 0.15}),
-    Sub('rewrap', lambda tier: s_rewrap(), run_rewrap, quick=1500, thorough=8000,
+    Sub('rewrap', lambda tier: s_rewrap(include_known_defect=REWRAP_DEEP), run_rewrap, quick=1500, thorough=20000,
         rule='stack of 1-3 decorators of distinct classes built on f, then wrapped again with a decorator of a class already in the stack (possibly another '
              'try_* variant); the result must have the layers and parameters of wrapping once, be == to it (dict equality of fresh wrappers), report f\'s '
              'signature, return f\'s result, and the stack that was wrapped again must behave as an identical untouched stack (valid / repeated / raising / '
              'undeclared-keyword probes incl. evaluation counts). non-trivial = the repeated class is reached through a chain (stack >= 2). '
              'Excluded by construction (known defect): repeated class under >= 2 other layers',
         floor=0.4, class_floors={'through_1': 0.2, 'direct': 0.2, 'variant_differs': 0.03, 'spec_cached_before': 0.15}),
-    Sub('try_fallback', lambda tier: s_try(), run_try, quick=2500, thorough=12000,
+    Sub('try_fallback', lambda tier: s_try(), run_try, quick=2000, thorough=30000,
         rule='one try_* layer (try_none/nan/zero/true/false/list/back), alone or with 1-2 transparent layers (kwargs_support, cache, loop, pd2np) around it; '
              'f is told to raise one of 12 Exception classes through any positional / keyword / *va / **vk slot, or not told; the wrapper must return f\'s '
              'result when f returns and the fallback (try_back: the first argument; try_list: a fresh list every time) when f raises. '
              'non-trivial = f raises, or stack >= 2',
         floor=0.4, class_floors={'raises': 0.3, 'returns': 0.2, 'try_back': 0.15, 'try_list': 0.05, 'raises_all_by_keyword': 0.03}),
-    Sub('kwargs_support', lambda tier: s_kws(), run_kws, quick=2500, thorough=12000,
+    Sub('kwargs_support', lambda tier: s_kws(), run_kws, quick=2000, thorough=30000,
         rule='kwargs_support (alone or with 1-2 other decorators above/below) on functions without **vk: valid call plus 1-3 undeclared keywords (x, y, z, '
              'va, vk, function, e, names of parameters the function does not have) in any order -> result of the call without them; a declared keyword that '
              'is also given positionally must still reach f (TypeError); functions with **vk only with declared keywords. non-trivial = >= 1 undeclared keyword',
         floor=0.3, class_floors={'duplicate': 0.05, 'declared+undeclared_keywords': 0.1, 'undeclared_named_like_varargs': 0.05}),
-    MachineSub('cache_history', CacheModel, quick=(400, 30), thorough=(1500, 40),
+    MachineSub('cache_history', CacheModel, quick=(400, 30), thorough=(3000, 40),
                rule='histories of <= 30/40 calls on four cached functions (two with the same signature, one wrapped twice, one all-defaults with **vk); arguments '
                     'from a 6-element pool (0, 1, "a", None, [1,2], {"k":1}) in random positional/keyword spellings, re-issued earlier calls (keywords reordered, '
                     'fresh equal containers), the same binding through another split, the same call on the twin function; model: per function a dict keyed by '
@@ -976,4 +973,11 @@ SUBS = [
                     'the first result (which carries its evaluation number). non-trivial = a key repeated after an intervening call with another key on that function',
                floor=0.3, class_floors={'hit_after_other_key': 0.3, 'hit_with_keywords_reordered': 0.05, 'hit_with_container_argument': 0.1,
                                         'same_arguments_on_two_functions': 0.1, 'same_binding_other_split': 0.1}),
+    EnumSub('binding_grid', enum_grid, run_grid, chunks=16,
+            rule='EVERY signature (0-4 positional parameters x 0..n trailing defaults x +-*va x +-**vk = 60) x EVERY split of a valid argument set '
+                 '(positional prefix 0..n, each remaining parameter by keyword or left to its default, 0-2 extra positionals for *va, 0-2 extra keywords '
+                 'for **vk) x 2 value sets x keyword order forward/reversed; on each: getcallargs == inspect.getcallargs == own binding model, '
+                 'call_with_callargs(getcallargs) == direct call, and for each of the 11 decorators alone: result, evaluated once, getargspec fields, '
+                 'getcallargs/call_with_callargs through the wrapper, W(W(f)) one layer with the same result. '
+                 'non-trivial = >= 1 parameter passed by keyword and >= 1 default relied on'),
 ]
